@@ -1,6 +1,6 @@
 """C10 - hash-to-scalar, hash-to-curve and random sampling always land in the right set."""
 import os, json
-import vlib
+import vlib, fam_consts
 from engine import Run, replay_event
 from fam_codec import CODEC, key_of, class_of, confirm_factory, gating
 
@@ -13,6 +13,7 @@ RULE = ("MC: the rejection samplers as TLA+ state machines (Sampling.tla) over e
 
 def run(tier):
     run = Run("C10", tier)
+    fam_consts.audit(run, tier)          # the cofactors, from the source text (MC_Consts)
     sc = vlib.scratch()
     run.mc("Sampling", "MC_Sampling.cfg", timeout=600)
     cases = run.generate("Gen_Codec", "hash", env={"WHAT": "hash"})
